@@ -226,6 +226,55 @@ def _net_snapshot(n):
             [([m.name for m in e.modules], round(e.weight, 12)) for e in n.edges])
 
 
+def _generator_spec(kind, args, doc):
+    """independent definition of each topology (added after seed C19-5: the reader was only compared with the generator's own
+    dictionary, so a generator that builds the wrong design went unnoticed): names, one attribute dictionary per module, areas,
+    lattice centres of grids, and the net set"""
+    mods, nets = doc["Modules"], doc["Nets"]
+    area = args[-1]
+    if len({id(v) for v in mods.values()}) != len(mods):
+        return "two modules share one attribute dictionary"
+    if any(v.get("area") != area for v in mods.values()):
+        return "a module does not have the requested area"
+    pins = [frozenset(x for x in e if isinstance(x, str)) for e in nets]
+    M = lambda *i: "M" + "_".join(str(k) for k in i)       # noqa
+    if kind in ("grid", "grid+centers"):
+        r, c = args[0], args[1]
+        if list(mods) != [M(i, j) for i in range(r) for j in range(c)]:
+            return "module names are not the lattice positions in row-major order"
+        want = [frozenset((M(i, j), M(i, j + 1))) for i in range(r) for j in range(c - 1)] + [frozenset((M(i, j), M(i + 1, j))) for i in range(r - 1) for j in range(c)]
+        if sorted(map(sorted, pins)) != sorted(map(sorted, want)):
+            return "nets are not the horizontal and vertical neighbour pairs"
+        if kind == "grid+centers":
+            W, H = 10.0, 8.0
+            for i in range(r):
+                for j in range(c):
+                    ctr = mods[M(i, j)].get("center")
+                    if ctr is None or abs(ctr[0] - (0.5 + j) * W / c) > 1e-9 or abs(ctr[1] - (0.5 + i) * H / r) > 1e-9:
+                        return f"centre of {M(i, j)} is {ctr}, not its lattice position"
+        elif any("center" in v for v in mods.values()):
+            return "centres although none were requested"
+        return None
+    if kind == "htree":
+        def count(lv):
+            return (1, 0) if lv == 1 else (3 + 4 * count(lv - 1)[0], 10 + 4 * count(lv - 1)[1])
+        nm, ne = count(args[0])
+        if len(mods) != nm or len(nets) != ne or list(mods) != [M(i) for i in range(nm)] and set(mods) != {M(i) for i in range(nm)}:
+            return f"h-tree of {args[0]} levels must have {nm} modules and {ne} nets, has {len(mods)} and {len(nets)}"
+        return None
+    n = args[0]
+    if list(mods) != [M(i) for i in range(n)]:
+        return "module names are not M0..M(n-1)"
+    want = {"chain": [frozenset((M(i), M(i + 1))) for i in range(n - 1)],
+            "ring": [frozenset((M(i), M((i + 1) % n))) for i in range(n)],
+            "star": [frozenset((M(0), M(i))) for i in range(1, n)],
+            "one-net": [frozenset(M(i) for i in range(n))],
+            "ring-star": [frozenset((M(i), M(i + 1))) for i in range(1, n - 1)] + [frozenset((M(n - 1), M(1)))] + [frozenset((M(0), M(i))) for i in range(1, n)]}[kind]
+    if sorted(map(sorted, pins)) != sorted(map(sorted, want)):
+        return "nets are not those of the topology"
+    return None
+
+
 @contract(P, kind="enum", functions=["tools.netgen.netgen.gen_grid", "tools.netgen.netgen.gen_chain", "tools.netgen.netgen.gen_ring", "tools.netgen.netgen.gen_star",
                                      "tools.netgen.netgen.gen_ring_star", "tools.netgen.netgen.gen_one_net", "tools.netgen.netgen.gen_htree"],
           scope="bounded: every topology at every size 1..12 (40 thorough), h-tree levels 1..4, grids up to 5x5")
@@ -256,6 +305,9 @@ def generated_netlists_are_accepted_and_equal(replay=None):
         txt = write_yaml(doc)
         if txt != write_yaml(doc2):
             failures.append(dict(clause="generating_twice_gives_identical_documents", topology=kind, args=args))
+        bad = _generator_spec(kind, args, doc)
+        if bad:
+            failures.append(dict(clause="generated_design_is_the_requested_topology", topology=kind, args=args, observed=bad))
         Rectangle.undefine_epsilon()
         try:
             n = Netlist(txt)
